@@ -3,6 +3,7 @@ import Gotree.Spec.C02
 import Gotree.Model.C02Readers
 import Gotree.Model.C02Dispatch
 import Gotree.Model.C02Writers
+import Gotree.Model.C02Files
 import Gotree.Model.C02Chan
 import Gotree.Model.C01
 
@@ -297,6 +298,27 @@ def conclude (tags : List String) (tie : Option String) (extra : List String := 
     else if d.startsWith "UNTIED" then bad d
     else ⟨.tie, tags, d⟩
 
+/-- format code and single / stream entry point of a harness format name -/
+def fmtCode (fmt : String) : Int × Bool :=
+  match fmt with
+  | "newick" => (0, false) | "multi" => (0, true) | "nexus" => (1, false) | "nexusm" => (1, true)
+  | "phyloxml" => (2, false) | "phyloxmlm" => (2, true) | "nextstrain" => (3, false) | "nextstrainm" => (3, true)
+  | _ => (7, false)
+
+/-- the `Input` of the entry-point models for the bytes a reader delivers; `none`: the decoded field cannot be read -/
+def mkInput (fmt decoded : String) : Option (List UInt8 → Readers.Input) :=
+  match fmt with
+  | "phyloxml" | "phyloxmlm" => (parsePx decoded).map fun px b => { bytes := b, px := px }
+  | "nextstrain" | "nextstrainm" => (parseNsDoc decoded).map fun ns b => { bytes := b, ns := ns }
+  | _ => some fun b => { bytes := b, chunks := Readers.chunksOf 4096 b }
+
+/-- the file-level model (Model/C02Files.lean) for a harness file kind -/
+def fileIn (kind : String) (bytes : List UInt8) (gzOpens : Bool) : Files.FileIn :=
+  let isGz := ["gz", "gztrunc", "gzflip", "notgz", "emptygz", "onebytegz", "dirgz", "missinggz"].contains kind
+  { name := if isGz then "in.txt.gz" else "in.txt",
+    entry := if kind.startsWith "missing" then .missing else if kind.startsWith "dir" then .dir else .file bytes,
+    gz := if gzOpens then some bytes else none }
+
 def bufSize (s : String) : Nat := match s.toNat? with | some n => if n < 16 then 4096 else n | none => 4096
 
 def handle (op : String) (f : List String) : Verdict :=
@@ -459,6 +481,24 @@ def handle (op : String) (f : List String) : Verdict :=
           else if c == outcome then ⟨.pass, tags, ""⟩ else ⟨.tie, tags, "model: " ++ c⟩
         | none => ⟨.pass, tags, ""⟩
     | none => bad "C02.cli input"
+  | "clifile", [flag, kind, input, outcome, decoded] =>
+    match unescapeToBytes input with
+    | some bytes =>
+      let fmt := Readers.formatOfFlag flag
+      let f := fileIn kind bytes false      -- the kinds with a .gz name used here are never gzip data
+      let tags := ["cli", "clifile", "clifile-" ++ kind, "cli-" ++ fmt] ++
+        tagIf (match Files.getReader f with | .ok _ => true | _ => false) "nontrivial"
+      if !(outcomeAllowed outcome) then ⟨.oracle, tags, "gotree reformat newick --format " ++ fmt ++ " -i <" ++ kind ++ ">: " ++ short outcome⟩
+      else
+        match mkInput (if fmt == "newick" then "multi" else fmt) decoded with
+        | none => conclude tags (some (untiedWhy decoded))
+        | some mk =>
+          -- the command stops with an error when GetReader fails or at the first record that carries an error
+          let c : String := match Files.readTrees f mk (Readers.formatCode flag) with
+            | .ok rs => if rs.all (·.tree.isSome) then "ok" else "err"
+            | .err .. => "err" | .panic .. => "panic" | .hang => "timeout"
+          if c == outcome then ⟨.pass, tags, ""⟩ else ⟨.tie, tags, "model: " ++ c⟩
+    | none => bad "C02.clifile input"
   | "clicmd", [cmd, fmt, _input, outcome] =>
     let tags := ["cli", "clicmd", "cli-" ++ fmt, "cliout-" ++ (if outcomeAllowed outcome then outcome else "crash")] ++
       tagIf (outcome == "ok") "nontrivial"
@@ -473,11 +513,16 @@ def handle (op : String) (f : List String) : Verdict :=
         tagIf (trees.length ≥ 1) "delivered" ++ tagIf (openok == "noopen") "file-noopen"
       if !(readOK outcome recs) then
         ⟨.oracle, tags, "file-level reader (" ++ mode ++ "): outcome " ++ short outcome ++ " / use " ++ short (",".intercalate (recs.map (·.use)))⟩
-      else if openok == "noopen" then
-        -- a missing file / a file that is not gzip: the entry point reports the error of GetReader
-        (if outcome == "err" && recs.isEmpty then ⟨.pass, tags, ""⟩ else ⟨.tie, tags, "model: the file cannot be opened, err"⟩)
       else
-        conclude tags (tieModel fmt "0" bytes decoded outcome recs)
+        -- GetReader + ReadTree / ReadMultiTrees through the file-level model: the name (suffix .gz or not), what it
+        -- leads to (missing, directory, file), what gzip makes of the content (`noopen`: the header is refused)
+        match mkInput fmt decoded with
+        | none => conclude tags (some (untiedWhy decoded))
+        | some mk =>
+          let f := fileIn mode bytes (openok == "open")
+          let (code, stream) := fmtCode fmt
+          let m := if stream then Files.readTrees f mk code else Files.readTree f mk code
+          conclude (tags ++ tagIf (match Files.getReader f with | .err _ => true | _ => false) "getreader-err") (tieOut m outcome recs)
     | _, _ => bad "C02.file fields"
   | "dec", [fmt, input, outcome, recsS, decodedGo, expected, kind] =>
     match unescapeToBytes input, parseRecs recsS with
